@@ -9,6 +9,8 @@ use http::{HeaderMap, HeaderValue, Method};
 use serde_json::json;
 use vcommon::{Args, Report};
 
+const SMILE: &str = "application/x-jackson-smile";
+
 struct Ep {
     name: &'static str,
     uri: &'static str,
@@ -52,7 +54,7 @@ fn endpoints() -> Vec<Ep> {
             uri: "/u/body/union",
             handler: "body_union",
             limit: 50 * 1024 * 1024,
-            bodies: vec![("{\"type\":\"text\",\"text\":\"t\"}", true), ("{\"text\":\"t\",\"type\":\"text\"}", true), ("{\"type\":\"text\",\"text\":\"t\"}]", false), ("{\"type\":\"text\",\"text\":5}", false), ("{\"type\":\"text\"}", false), ("{\"type\":\"other\",\"other\":[1]}", true)],
+            bodies: vec![("{\"type\":\"text\",\"text\":\"t\"}", true), ("{\"text\":\"t\",\"type\":\"text\"}", true), ("{\"type\":\"text\",\"text\":\"t\"}]", false), ("{\"type\":\"text\",\"text\":5}", false), ("{\"type\":\"text\"}", false), ("{\"type\":\"other\",\"other\":[1]}", true), ("{\"type\":\"text\",\"text\":\"t\",\"more\":1}", false), ("{\"type\":\"payload\",\"payload\":{\"name\":\"n\",\"count\":1,\"ratio\":0.5}}", true), ("{\"type\":\"payload\",\"payload\":{\"name\":\"n\",\"count\":1,\"ratio\":0.5,\"deepBogus\":[]}}", false)],
             optional: false,
         },
     ]
@@ -61,7 +63,7 @@ fn endpoints() -> Vec<Ep> {
 pub fn run(args: &Args) -> Report {
     let mut report = Report::new("C06", "fault_enumeration");
     let rigs = [Rig::new(Options::default), Rig::new(|| Options { request_chunk: 1, response_chunk: 0 }), Rig::new(|| Options { request_chunk: 3, response_chunk: 0 }), Rig::new(|| Options { request_chunk: 4, response_chunk: 0 })];
-    let cts: Vec<(Option<&'static str>, bool)> = vec![(Some("application/json"), true), (Some("application/json; charset=utf-8"), true), (None, false), (Some("text/plain"), false), (Some("application/json+xml"), false), (Some("application/*"), false)];
+    let cts: Vec<(Option<&'static str>, bool)> = vec![(Some("application/json"), true), (Some("application/json; charset=utf-8"), true), (None, false), (Some("text/plain"), false), (Some("application/json+xml"), false), (Some("application/*"), false), (Some(SMILE), true)];
     let _ = args;
     for ep in endpoints() {
         for (body, valid) in &ep.bodies {
@@ -72,16 +74,25 @@ pub fn run(args: &Args) -> Report {
                     if let Some(ct) = ct {
                         headers.insert(http::header::CONTENT_TYPE, HeaderValue::from_static(ct));
                     }
-                    let built = Built { method: Method::POST, uri: ep.uri.parse().unwrap(), headers, body: body.as_bytes().to_vec() };
+                    let wire: Vec<u8> = if *ct == Some(SMILE) {
+                        match serde_json::from_str::<serde_json::Value>(body) {
+                            Ok(v) => serde_smile::to_vec(&v).unwrap(),
+                            Err(_) => continue, // only whole JSON values have a Smile rendering
+                        }
+                    } else {
+                        body.as_bytes().to_vec()
+                    };
+                    let wire_len = wire.len();
+                    let built = Built { method: Method::POST, uri: ep.uri.parse().unwrap(), headers, body: wire };
                     // an optional body without a Content-Type is absent (handler runs with None)
-                    let expect_call = if ct.is_none() && ep.optional { true } else { *ct_ok && *valid && body.len() <= ep.limit };
+                    let expect_call = if ct.is_none() && ep.optional { true } else { *ct_ok && *valid && wire_len <= ep.limit };
                     for asynch in [false, true] {
                         report.evaluations += 1;
                         report.transitions += 1;
                         let flavour = if asynch { "async" } else { "blocking" };
                         let obs = reqs::send(rig, &built, asynch);
                         let case = json!({"endpoint": ep.name, "body": body, "content_type": ct, "chunk": ri, "flavour": flavour});
-                        let class = format!("{}|{}|{}|ct={:?}|rig{}", ep.name, flavour, if *valid { if body.len() > ep.limit { "oversize" } else { "valid-body" } } else { "invalid-body" }, ct, ri);
+                        let class = format!("{}|{}|{}|ct={:?}|rig{}", ep.name, flavour, if *valid { if wire_len > ep.limit { "oversize" } else { "valid-body" } } else { "invalid-body" }, ct, ri);
                         if let Some(p) = &obs.panicked {
                             report.violation(format!("C06|loopback|panic|{}", class), format!("{} panicked on body {:?}: {}", ep.name, body, p), case);
                             continue;
